@@ -61,7 +61,9 @@ IO_EXPRS = ['json-doc(%s)', 'json-doc(%s, map{"liberal": true()})', 'unparsed-te
             'unparsed-text(%s, "utf-16")', 'unparsed-text-lines(%s)', 'unparsed-text-available(%s)',
             'unparsed-text-available(%s, "iso-8859-1")', 'count(unparsed-text-lines(%s))',
             'json-doc(%s)?a', 'for $u in (%s) return unparsed-text-available($u)', 'doc-available(%s)',
-            'string-length(unparsed-text(%s))']
+            'string-length(unparsed-text(%s))', 'unparsed-text(%s, "rot13")', 'unparsed-text-lines(%s, "zlib")',
+            'unparsed-text-available(%s, "base64")', 'unparsed-text(%s, "quopri")', 'unparsed-text-available(%s, "undefined")',
+            'unparsed-text-lines(%s, "idna")']
 
 
 def mutate(rng, src):
@@ -152,6 +154,16 @@ ARG_POOL = [
     'xs:integer(5)', 'xs:unsignedByte(255)', 'xs:long("-9223372036854775808")', 'xs:NCName("a")', 'xs:language("en-US")',
     'abs#1', 'concat#3', 'function($x) { $x }', 'function($a, $b) { $a }', 'function() { 1 }', 'true#0', 'position#0',
     'function($x) { error() }', 'function($x as xs:integer) as xs:string { $x }', 'map:get(?, 1)', 'math:pow(?, 2)',
+    # implementation limits and unusual but legal values (pristine notes of round 4)
+    '9' * 5000, '9' * 4000 + ' * ' + '9' * 4000, '9' * 4299 + ' + ' + '9' * 4299, "'" + '9' * 5000 + "'", "'1e999'", "'\"\\u0000\"'",
+    "'{\"\\u0000\": 1}'", "'[Y,99999999999999999999]'", "'[s,99999999999999999999-*]'", "'[D,*-99999999999999999999]'", "'rot13'", "'zlib'",
+    "'base64'", "'undefined'", "'idna'", "QName('http://a:b/', 'p')", "QName('http://[', 'p')", "QName('', 'a')",
+    "xs:dayTimeDuration('P9999999999D')", "xs:duration('PT" + '9' * 40 + "S')", "xs:dayTimeDuration('PT" + '9' * 5000 + "S')",
+    "map{'fallback': function($s) { 1 }}", "map{'fallback': string-length#1}", "map{'fallback': function($s) { () }}",
+    "map{'validate': true()}", "map{'validate': true(), 'duplicates': 'retain'}",
+    "parse-xml('<boolean xmlns=\"http://www.w3.org/2005/xpath-functions\">x</boolean>')",
+    "parse-xml('<number xmlns=\"http://www.w3.org/2005/xpath-functions\">1e999</number>')",
+    "parse-xml('<map xmlns=\"http://www.w3.org/2005/xpath-functions\"><null key=\"a\">x</null></map>')",
 ]
 
 
@@ -176,9 +188,9 @@ def _pool_classes():
             cls['map'].append(a)
         elif a.startswith('['):
             cls['array'].append(a)
-        elif a.startswith(('.', '/')) or a.startswith('(/'):
+        elif a.startswith(('.', '/')) or a.startswith(('(/', 'parse-xml(')):
             cls['node'].append(a)
-        elif a.startswith('xs:QName'):
+        elif a.startswith(('xs:QName', 'QName(')):
             cls['qname'].append(a)
         elif a.startswith(('xs:hex', 'xs:base64')):
             cls['binary'].append(a)
@@ -350,7 +362,8 @@ TYPE_NAMES = ['xs:integer', 'xs:decimal', 'xs:double', 'xs:float', 'xs:string', 
               'xs:unsignedLong', 'xs:NCName', 'xs:language', 'xs:token', 'xs:ID', 'xs:NMTOKENS', 'xs:anyAtomicType',
               'xs:numeric', 'xs:NOTATION', 'xs:dateTimeStamp', 'xs:error', 'xs:nope', 'item()', 'node()', 'element()',
               'attribute(x)', 'map(*)', 'array(*)', 'function(*)', 'empty-sequence()', 'map(xs:integer, item()*)',
-              'array(xs:integer)', 'function(item()) as item()', 'document-node(element(r))', 'text()']
+              'array(xs:integer)', 'function(item()) as item()', 'document-node(element(r))', 'text()',
+              'xs:*', "xs:string('a:b')", 'fn:abs(xs:int(1))', 'xs:', ':a', 'Q{u}a', 'Q{http://www.w3.org/2001/XMLSchema}int']
 
 
 def opcall_source(rng, version='3.1'):
